@@ -20,13 +20,14 @@ def gen_case(rng, m, tier):
     """(setting, class label, python-model seconds estimate)"""
     r = rng
     thorough = tier == "thorough"
+    edge2 = r.choice([b"..", b"./", b"/.", b"zz", b"z.", b".z"]) if r.random() < 0.12 else None   # salt value 0 and extremes
     if m == "descrypt":
-        return salt(r, 2) + r.choice([b"", salt(r, 11)]), "des", 0.004
+        return (edge2 or salt(r, 2)) + r.choice([b"", salt(r, 11)]), "des" + ("/edge" if edge2 else ""), 0.004
     if m == "bigcrypt":
-        return salt(r, 2) + salt(r, r.choice([12, 22, 60])), "big", 0.03
+        return (edge2 or salt(r, 2)) + salt(r, r.choice([12, 22, 60])), "big" + ("/edge" if edge2 else ""), 0.03
     if m == "bsdicrypt":
         c = r.choice([1, 2, 3, 7, 25, 100, 725, 999, 4095, r.randint(1, 4095)] + ([2 ** 18 + 1] if thorough and r.random() < 0.05 else []))
-        return b"_" + gen.enc64_le(c, 4) + salt(r, 4) + r.choice([b"", salt(r, 11)]), "bsdi/c%d" % min(c.bit_length(), 12), c * 7e-5 + 0.002
+        return b"_" + gen.enc64_le(c, 4) + (b"...." if r.random() < 0.06 else salt(r, 4)) + r.choice([b"", salt(r, 11)]), "bsdi/c%d" % min(c.bit_length(), 12), c * 7e-5 + 0.002
     if m == "md5crypt":
         n = r.choice(list(range(0, 9)) + [9, 12, 20])
         return b"$1$" + salt(r, n) + r.choice([b"", b"$", b"$" + salt(r, 22)]), "md5/s%d" % min(n, 9), 0.004
